@@ -658,7 +658,7 @@ Theorem C03_groupby_map_values : forall t rt gm g,
   (forall r, group_map t rt gm g = Some r ->
      r = flat_map (fun e => fst e :: match gm_apply t rt gm (snd e) with Some vs => vs | None => [] end) g) /\
   (group_map t rt gm g = None <-> exists e, In e g /\ gm_apply t rt gm (snd e) = None).
-Proof. exact (fun t rt gm g => conj (group_map_some t rt gm g) (group_map_none t rt gm g)). Qed.
+Proof. exact group_map_values. Qed.
 Print Assumptions C03_groupby_map_values.
 
 (* len works on both result types; a method only AgentSet has ("get") on result_type="list" is an
@@ -689,6 +689,34 @@ Example C03_groupby_map_do_example :
   snd (step ex_state (GroupDo 0 (KAttr 0) false true 1 5)) = RErr E_ATTR /\
   attr_of (st_tbl (fst (step ex_state (GroupDo 0 (KAttr 0) false false 1 5)))) 2 1 = Some 5 /\
   snd (step ex_state (GroupBy 0 (KAttr 0) false)) = ROk [0; 2; 4; 2; 3; 1; -2; 1; 2].
+Proof. vm_compute. repeat split. Qed.
+
+(* ---- tuple sort keys: key = lambda a: (k1(a), k2(a)) compares lexicographically.  The result is a
+   permutation, sorted by the first component in the requested direction, the members sharing a first
+   component are sorted by the second, and members with the same pair keep their order (stable) *)
+Theorem C03_sort_tuple_keys : forall t k1 k2 asc m r,
+  sort2_members t k1 k2 asc m = Some r ->
+  let f1 := key_or0 t k1 in let f2 := key_or0 t k2 in
+  Permutation m r /\ key_sorted asc f1 r /\
+  (forall v, key_sorted asc f2 (filter (fun a => f1 a =? v) r)) /\
+  (forall v w, filter (fun a => f2 a =? w) (filter (fun a => f1 a =? v) r) =
+               filter (fun a => f2 a =? w) (filter (fun a => f1 a =? v) m)).
+Proof. exact sort2_spec. Qed.
+Print Assumptions C03_sort_tuple_keys.
+
+Theorem C03_sort_tuple_keys_error_iff : forall t k1 k2 asc m,
+  sort2_members t k1 k2 asc m = None <->
+  exists a, In a m /\ (eval_key t k1 a = None \/ eval_key t k2 a = None).
+Proof. exact sort2_none. Qed.
+Print Assumptions C03_sort_tuple_keys_error_iff.
+
+Example C03_sort_tuple_example :
+  let t := [(1, {| a_cls := 0; a_attrs := [(0, 1); (1, 5)] |}); (2, {| a_cls := 0; a_attrs := [(0, 0); (1, 7)] |});
+            (3, {| a_cls := 0; a_attrs := [(0, 1); (1, 3)] |}); (4, {| a_cls := 0; a_attrs := [(0, 0); (1, 7)] |});
+            (5, {| a_cls := 0; a_attrs := [(0, 1)] |})] in
+  sort2_members t (KAttr 0) (KAttr 1) true [1; 2; 3; 4] = Some [2; 4; 3; 1] /\
+  sort2_members t (KAttr 0) (KAttr 1) false [1; 2; 3; 4] = Some [1; 3; 2; 4] /\
+  sort2_members t (KAttr 0) (KAttr 1) true [1; 5] = None.
 Proof. vm_compute. repeat split. Qed.
 
 (* ---- the boundary of the quantifier: what select does with at_most values the statement excludes *)
